@@ -126,6 +126,9 @@ def draw_job(rng: random.Random, prop: str, opts) -> dict:
   }
   # some runs live on a padded modal layout from the start (structural zeros in
   # the padding are then monitored on every state of the run)
+  # the carried clock does not have to start at zero (a run continued from an
+  # earlier one): per-step advance must still be dt
+  job['t0'] = rng.choice([0.0, 0.0, 3.5, 250.0])
   job['long'] = rng.random() < float(opts.get('p_long', 0.0))
   if job['long']:
     # long histories: gentle amplitude and at least one scale-selective filter so
@@ -257,6 +260,8 @@ def initial_state(job, coords, ref_eq):
     if job['family'] == 'cloud':
       for nm in ('specific_cloud_liquid_water_content', 'specific_cloud_ice_water_content'):
         st.tracers[nm] = st.tracers[nm] * 0.05
+    if job['family'] != 'dry' and job.get('t0'):
+      st.sim_time = float(job['t0'])
   st = jax.tree_util.tree_map(jnp.asarray, st)
   if job['integrator'] == 'semi_implicit_leapfrog':
     first = jax.jit(ti.backward_forward_euler(ref_eq, job['dt']))(st)
@@ -461,9 +466,10 @@ class RefWorld:
 
   @staticmethod
   def _t0(job):
+    t0 = float(job.get('t0', 0.0))
     if job['integrator'] == 'semi_implicit_leapfrog':
-      return {'t0.': 0.0, 't1.': job['dt']}
-    return {'': 0.0}
+      return {'t0.': t0, 't1.': t0 + job['dt']}
+    return {'': t0}
 
   def _rebuild(self):
     self.eq = build_equation(self.job, self.coords, self.oro)
